@@ -157,6 +157,7 @@ type Service struct {
 	Name     string
 	BasePath string
 	Methods  []*Method
+	Attrs    []string // extra body lines (options.audience = [...]), rendered verbatim
 }
 
 type TopicMsg struct {
@@ -580,6 +581,9 @@ func renderService(o *w, s *Service) {
 	o.indent++
 	if s.BasePath != "" {
 		o.p("basePath = %q", s.BasePath)
+	}
+	for _, a := range s.Attrs {
+		o.p("%s", a)
 	}
 	for _, m := range s.Methods {
 		renderMethod(o, m)
